@@ -19,6 +19,7 @@ package config
 import (
 	"bytes"
 	"errors"
+	"fmt"
 	"io"
 
 	"github.com/drone/envsubst/v2"
@@ -28,6 +29,8 @@ import (
 	"github.com/dadrus/heimdall/internal/x/errorchain"
 	"github.com/dadrus/heimdall/internal/x/stringx"
 )
+
+var ErrUnsupportedKeyType = errors.New("unsupported key type")
 
 var ErrEmptyRuleSet = errors.New("empty rule set")
 
@@ -81,9 +84,36 @@ func parseYAML(reader io.Reader, envUsageEnabled bool) (*RuleSet, error) {
 		return nil, err
 	}
 
+	// mappings with keys, which are not strings, like numbers, booleans, or null, are
+	// not supported and would otherwise lead to panics while decoding the configuration
+	if err := ensureStringKeys(rawConfig, "$"); err != nil {
+		return nil, errorchain.NewWithMessage(heimdall.ErrConfiguration, "failed to parse rule set").CausedBy(err)
+	}
+
 	if err := DecodeConfig(rawConfig, &ruleSet); err != nil {
 		return nil, err
 	}
 
 	return &ruleSet, nil
+}
+
+func ensureStringKeys(value any, path string) error {
+	switch typed := value.(type) {
+	case map[string]any:
+		for key, val := range typed {
+			if err := ensureStringKeys(val, path+"."+key); err != nil {
+				return err
+			}
+		}
+	case map[any]any:
+		return fmt.Errorf("%w: mapping at %s contains keys, which are not strings", ErrUnsupportedKeyType, path)
+	case []any:
+		for idx, val := range typed {
+			if err := ensureStringKeys(val, fmt.Sprintf("%s[%d]", path, idx)); err != nil {
+				return err
+			}
+		}
+	}
+
+	return nil
 }
